@@ -157,7 +157,7 @@ def run(ctx):
     # ---- C13.2 buffers
     cc_ctor = sorted({g_.id for g_, b_, s_ in facts.constructions(CC)})
     brs = [(g, bb) for g, bb, t in facts.all_calls(lambda t: call_matches(t, r"^std::io::BufReader::<R>::(new|with_capacity)$"))]
-    ctx.ob("C13.2", "one-bufreader", "one BufReader per connection, created where the ClientConnection is built", len(brs) == 1 and brs[0][0].id in cc_ctor, facts.adt(CC)["file"])
+    ctx.ob("C13.2", "one-bufreader", "one BufReader per connection, created where the ClientConnection is built", len(brs) == 1 and (brs[0][0].id in cc_ctor or any(shared.private_to(facts, c_, brs[0][0].id) for c_ in cc_ctor)), facts.adt(CC)["file"])
     if brs:
         g, bb = brs[0]
         t = g.term(bb)
@@ -211,9 +211,9 @@ def run(ctx):
     # a discarding loop must not take bytes beyond the body it discards: whether it would depends on how much of the
     # following message has already arrived, i.e. on segmentation
     import drain_rules as DR
-    sz = shared.size_key_of(facts, ER)
+    sz = shared.size_init(facts, ER)
     ctx.require(sz is not None, "C13.2: remaining-size field of the length-limited reader")
-    DR.owed_rules(ctx, "C13.2", ER, (1, "*") + sz, rules={"bounded": ["C13.2"], "complete": []})
+    DR.owed_rules(ctx, "C13.2", ER, sz, rules={"bounded": ["C13.2"], "complete": []})
 
     # ---- C13.3 loop-carried parser state in the line reader
     line_reader_rules(ctx, facts, "C13.3")
